@@ -81,7 +81,7 @@ def parseOps (j : Json) : Option (List Kw.Op) :=
 
 def kwOne (j : Json) : Option Json :=
   match getStrList? j "attrs", getStrList? j "assigned", getBool? j "contained", getStrList? j "extras", parseOps j with
-  | some a, some s, some c, some e, some ops => some (toJson (Kw.kwargs a (Kw.collectedOps a s c e ops)))
+  | some a, some s, some c, some e, some ops => some (toJson (Kw.kwargs a c (Kw.collectedOps a s c e ops)))
   | _, _, _, _, _ => none
 
 def handle (j : Json) : Json :=
